@@ -880,3 +880,90 @@ func TestVerifC17_AdaptiveHeightRule(t *testing.T) {
 		}
 	})
 }
+
+// Options whose argument is optional (--border[=STYLE], --scrollbar[=C1[C2]], --gap-line[=STR],
+// --tmux[=OPTS], --color[=SPEC], --listen[=ADDR] ...): a value attached with "=" is the value of
+// the option whatever it looks like - it is taken (and validated) even when it starts with "-"
+// or "+", which only stops a separate word from being read as the value. Never is an attached
+// value dropped silently.
+func TestVerifC17_OptionalValueAttached(t *testing.T) {
+	styles := map[string]bool{"rounded": true, "sharp": true, "bold": true, "block": true, "thinblock": true, "double": true, "horizontal": true, "vertical": true,
+		"top": true, "bottom": true, "left": true, "right": true, "line": true, "none": true}
+	borderOpts := []string{"--border", "--list-border", "--input-border", "--header-border", "--header-lines-border", "--preview-border"}
+	rapid.Check(t, func(t *rapid.T) {
+		kind := rapid.SampledFrom([]string{"gap-line", "gap-line", "scrollbar", "scrollbar", "border", "border", "tmux", "color", "listen"}).Draw(t, "option")
+		hostile := []string{"-", "+", "--", "-x", "+x", "-+", "+-", "-rounded", "+rounded", "-1", "-50%", "+50%", "-é", "x", "ab", "é", "|", "rounded", "sharp", "top"}
+		v := rapid.SampledFrom(hostile).Draw(t, "value")
+		var opt string
+		// other options around it: before and after
+		var before, after []string
+		if rapid.Bool().Draw(t, "optionBefore") {
+			before = []string{rapid.SampledFrom([]string{"--multi", "--reverse", "--no-sort", "--exact"}).Draw(t, "before")}
+		}
+		if rapid.Bool().Draw(t, "optionAfter") {
+			after = []string{rapid.SampledFrom([]string{"--multi", "--reverse", "--no-sort", "--exact", "+s", "+x"}).Draw(t, "after")}
+		}
+		mk := func(words ...string) []string {
+			return append(append(append([]string{}, before...), words...), after...)
+		}
+		signed := strings.HasPrefix(v, "-") || strings.HasPrefix(v, "+")
+		switch kind {
+		case "gap-line":
+			opt = "--gap-line"
+			args := mk(opt + "=" + v)
+			opts, err := ParseOptions(false, args)
+			vstat.Case("C17/optional-value-attached", fmt.Sprintf("%q", args), signed, "option="+kind, fmt.Sprintf("signed=%v", signed))
+			if err != nil || opts.GapLine == nil || *opts.GapLine != v {
+				got := "<unset>"
+				if opts != nil && opts.GapLine != nil {
+					got = *opts.GapLine
+				}
+				t.Fatalf("fzf %q: error %v, gap line %q - the attached value is %q", args, err, got, v)
+			}
+		case "scrollbar":
+			opt = "--scrollbar"
+			args := mk(opt + "=" + v)
+			opts, err := ParseOptions(false, args)
+			vstat.Case("C17/optional-value-attached", fmt.Sprintf("%q", args), signed, "option="+kind, fmt.Sprintf("signed=%v", signed))
+			valid := len([]rune(v)) <= 2 // every character of the value list is one column wide
+			if valid != (err == nil) {
+				t.Fatalf("fzf %q: error %v; a scrollbar of one or two characters is valid, a longer one is not", args, err)
+			}
+			if err == nil && (opts.Scrollbar == nil || *opts.Scrollbar != v) {
+				got := "<unset>"
+				if opts.Scrollbar != nil {
+					got = *opts.Scrollbar
+				}
+				t.Fatalf("fzf %q: scrollbar %q - the attached value is %q", args, got, v)
+			}
+		default:
+			switch kind {
+			case "border":
+				opt = rapid.SampledFrom(borderOpts).Draw(t, "borderOption")
+			default:
+				opt = "--" + kind
+			}
+			args := mk(opt + "=" + v)
+			_, err := ParseOptions(false, args)
+			vstat.Case("C17/optional-value-attached", fmt.Sprintf("%q", args), signed, "option="+kind, fmt.Sprintf("signed=%v", signed))
+			switch {
+			case kind == "border" && styles[v]:
+				if err != nil && !(opt == "--preview-border" && false) {
+					// not every style is allowed for every border; an error must then name the value
+					if !strings.Contains(err.Error(), "border") {
+						t.Fatalf("fzf %q: %v", args, err)
+					}
+				}
+			case signed:
+				// no style, tmux placement, colour specification or address starts with a sign
+				// ("+N" may be read as a port number by --listen: left out)
+				if v == "+50%" || kind == "listen" && strings.HasPrefix(v, "+") {
+					return // "+50%" is a number with a sign: a size
+				}
+				if err == nil {
+					t.Fatalf("fzf %q is accepted: the attached value %q is no valid argument of %s and must not be dropped", args, v, opt)
+				}
+			}
+		}
+	})
+}
